@@ -555,6 +555,34 @@ def matrix_cases(prefix, kinds, rng=None, two_path=True, c01_domain=False, root_
     return cases
 
 
+def transfer_name_cases(prefix, kinds):
+    """whole-directory transfers of entries whose names START WITH (or equal) the directory's own name: data/data.bin,
+    log/log.0, a/a/f - bytes around the copy-buffer boundary, read back afterwards"""
+    rng = random.Random(61)
+    cases = []
+    big = bytes((j * 11) % 256 for j in range(8193))
+    for kind in kinds:
+        c = vfx.Case("%s_xfernames_%s" % (prefix, kind))
+        g = build_config(c, kind, rng)
+        c.cfg = g
+        t = g.target
+        c.op("createdirall", vfx.ps(t, "data")); c.op("createdirall", vfx.ps(t, "log")); c.op("createdirall", vfx.ps(t, "a/a"))
+        write_file(c, t, "data/data.bin", big)
+        write_file(c, t, "data/datadata", b"dd")
+        write_file(c, t, "log/log.0", bytes([0, 159, 146, 150]))
+        write_file(c, t, "a/a/f.txt", b"nested")
+        c.op("snap", t)
+        c.first_snap = c.nops - 1
+        c.op("copydir", vfx.ps(t, "data"), vfx.ps(t, "d2")); c.op("snap", t)
+        c.op("readtostring", vfx.ps(t, "d2/data.bin")); c.op("metadata", vfx.ps(t, "d2/data.bin"))
+        c.op("movedir", vfx.ps(t, "log"), vfx.ps(t, "l2")); c.op("snap", t)
+        c.op("copydir", vfx.ps(t, "a"), vfx.ps(t, "a2")); c.op("movedir", vfx.ps(t, "a"), vfx.ps(t, "a3")); c.op("snap", t)
+        for w in g.watch:
+            c.op("snap", w)
+        cases.append(c)
+    return cases
+
+
 def odd_join_cases(prefix, kinds):
     """join arguments spelled oddly (doubled leading slashes, './', inner '//', '..' that climbs to the root and back)
     through an altroot whose underlying filesystem holds a file of the same name OUTSIDE the altroot's directory: every
